@@ -200,3 +200,113 @@ pub fn w1_filtered(s: &W1Scn, keep: &[bool]) -> W1Scn {
     n.ops = out;
     n
 }
+
+// ---------------------------------------------------------------------------------------------
+// W3
+// ---------------------------------------------------------------------------------------------
+use crate::w3ops::{EnvOp, W3Scn};
+
+/// Remove list elements of a W3 scenario: creation ordinals of later cancels / modifies and the target
+/// permutations of the steps are renumbered (a permutation entry whose submission was removed is dropped).
+pub fn w3_filtered(s: &W3Scn, keep: &[bool]) -> W3Scn {
+    let assets = s.cfg.assets;
+    let mut map: Vec<Vec<Option<usize>>> = vec![vec![]; assets];
+    let mut next_new = vec![0usize; assets];
+    let mut out = vec![];
+    // submission index inside the current batch: old index -> new index
+    let mut batch_map: Vec<Option<usize>> = vec![];
+    let mut batch_new = 0usize;
+    for (op, k) in s.ops.iter().zip(keep.iter()) {
+        match op {
+            EnvOp::New { a, vol, price, .. } => {
+                let creates = *a < assets && *vol > 0 && price.map(|p| p % s.cfg.ticks[*a] == 0 && p != 0 && p != u32::MAX).unwrap_or(true);
+                if creates {
+                    if *k {
+                        map[*a].push(Some(next_new[*a]));
+                        next_new[*a] += 1;
+                    } else {
+                        map[*a].push(None);
+                    }
+                    if *k {
+                        batch_map.push(Some(batch_new));
+                        batch_new += 1;
+                        out.push(op.clone());
+                    } else {
+                        batch_map.push(None);
+                    }
+                } else if *k {
+                    out.push(op.clone());
+                }
+            }
+            EnvOp::Cancel { a, ord } | EnvOp::Modify { a, ord, .. } => {
+                let n = if *a < assets { map[*a].get(*ord).copied().flatten() } else { None };
+                match (n, *k) {
+                    (Some(no), true) => {
+                        batch_map.push(Some(batch_new));
+                        batch_new += 1;
+                        out.push(match op {
+                            EnvOp::Cancel { a, .. } => EnvOp::Cancel { a: *a, ord: no },
+                            EnvOp::Modify { a, price, vol, .. } => EnvOp::Modify { a: *a, ord: no, price: *price, vol: *vol },
+                            _ => unreachable!(),
+                        });
+                    }
+                    _ => batch_map.push(None),
+                }
+            }
+            EnvOp::Step { perm } => {
+                if *k {
+                    let np = perm.as_ref().map(|p| p.iter().filter_map(|i| batch_map.get(*i).copied().flatten()).collect::<Vec<usize>>());
+                    out.push(EnvOp::Step { perm: np });
+                    batch_map.clear();
+                    batch_new = 0;
+                }
+                // a removed step merges its batch into the next one: keep numbering
+            }
+            EnvOp::Trading { .. } => {
+                if *k {
+                    out.push(op.clone());
+                }
+            }
+        }
+    }
+    let mut n = s.clone();
+    n.ops = out;
+    n
+}
+
+pub fn w3_simplifications(s: &W3Scn) -> Vec<W3Scn> {
+    let mut out = vec![];
+    for (i, op) in s.ops.iter().enumerate() {
+        let mut push = |op: EnvOp| {
+            if s.ops[i] != op {
+                let mut n = s.clone();
+                n.ops[i] = op;
+                out.push(n);
+            }
+        };
+        match op {
+            EnvOp::New { a, bid, vol, trader, price } => {
+                if *vol > 1 {
+                    push(EnvOp::New { a: *a, bid: *bid, vol: 1, trader: *trader, price: *price });
+                    push(EnvOp::New { a: *a, bid: *bid, vol: vol / 2, trader: *trader, price: *price });
+                }
+                if *trader != 0 {
+                    push(EnvOp::New { a: *a, bid: *bid, vol: *vol, trader: 0, price: *price });
+                }
+            }
+            EnvOp::Step { perm: Some(p) } => {
+                let id: Vec<usize> = (0..p.len()).collect();
+                if *p != id {
+                    push(EnvOp::Step { perm: Some(id) });
+                }
+            }
+            _ => {}
+        }
+    }
+    if s.cfg.t0 != 0 {
+        let mut n = s.clone();
+        n.cfg.t0 = 0;
+        out.push(n);
+    }
+    out
+}
